@@ -291,6 +291,16 @@ def condition_facts(fn, cap=48):
         l, op, r = c
         l = strip_casts(l)
         r = strip_casts(r) if r is not None else None
-        return st | {(op, l.text(), r.text() if r is not None else "", frozenset(toks(l) | toks(r)), l, r)}
+        lt, rt = l.text(), (r.text() if r is not None else "")
+        # the same (side-effect free) test cannot come out both ways on one path: prune the contradiction
+        neg = {"==": "!=", "!=": "==", "<": ">=", ">=": "<", ">": "<=", "<=": ">"}.get(op)
+        def pure(e):
+            # only locals / parameters / constants: any change to them kills the fact in transfer()
+            return e is None or all(x.k not in ("call", "mem", "sub", "un") or (x.k == "un" and x.op in ("-", "~", "!")) for x in e.walk())
+        if neg is not None and pure(l) and pure(r):
+            for f in st:
+                if f[0] == neg and f[1] == lt and f[2] == rt:
+                    return None
+        return st | {(op, lt, rt, frozenset(toks(l) | toks(r)), l, r)}
     IN, OUT, T = forward_paths(fn, frozenset(), transfer, edge=edge, cap=cap)
     return IN, T
